@@ -548,7 +548,14 @@ func unset(parent, child trienode.Node, key *Path, pos uint8, removeLeft bool) e
 		cld.Flags = trienode.NewNodeFlag()
 		return unset(cld, cld.Child, key, pos+cld.Path.Len(), removeLeft)
 
-	case nil, *trienode.HashNode, *trienode.ValueNode:
+	case *trienode.ValueNode:
+		// A boundary leaf hanging directly under a binary node: it must be re-supplied
+		// by the key-value pairs, exactly like a leaf reached through an edge node.
+		if bn, ok := parent.(*trienode.BinaryNode); ok {
+			bn.Children[key.Bit(pos-1)] = nil
+		}
+		return nil
+	case nil, *trienode.HashNode:
 		// Child is nil, nothing to unset
 		return nil
 	default:
